@@ -100,6 +100,48 @@ pub fn priv_from_seed(dh: DhKind, seed: u64, label: u64) -> [u8; 32] {
     k
 }
 
+/// Like `priv_from_seed`, but a quarter of all key seeds ask for public keys of a rare shape:
+/// seed % 8 == 7 -> the public key ENDS in a zero byte; seed % 8 == 6 -> the first coordinate
+/// byte is zero (byte 0 for X25519, byte 1 for the SEC1 encoding of P-256). Keys that live in
+/// fixed-size zero-padded buffers, or that are compared / trimmed / length-sniffed, behave
+/// differently exactly for such values (about 1 in 128..256 random keys).
+pub fn shaped_priv(dh: DhKind, seed: u64, label: u64) -> [u8; 32] {
+    use std::collections::HashMap;
+    use std::sync::{Mutex, OnceLock};
+    let shape = seed % 8;
+    if shape < 6 {
+        return priv_from_seed(dh, seed, label);
+    }
+    static CACHE: OnceLock<Mutex<HashMap<(DhKind, u64, u64), [u8; 32]>>> = OnceLock::new();
+    let cache = CACHE.get_or_init(|| Mutex::new(HashMap::new()));
+    // the search is seeded by a small pool index, so that results are shared between cases
+    let seed = (seed >> 3) % 32 * 8 + shape;
+    if let Some(k) = cache.lock().unwrap().get(&(dh, seed, label)) {
+        return *k;
+    }
+    let mut found = priv_from_seed(dh, seed, label);
+    for t in 0..6000u64 {
+        let k = priv_from_seed(dh, seed, label + 1000 * (t + 1));
+        if let Some(p) = rc::dh_pub(dh, &k) {
+            let hit = if shape == 7 {
+                p[p.len() - 1] == 0
+            } else {
+                p[if dh == DhKind::P256 { 1 } else { 0 }] == 0
+            };
+            if hit {
+                found = k;
+                break;
+            }
+        }
+    }
+    let mut c = cache.lock().unwrap();
+    if c.len() > 200_000 {
+        c.clear();
+    }
+    c.insert((dh, seed, label), found);
+    found
+}
+
 /// How ephemeral keys reach snow.
 #[derive(Clone, Copy, Debug, PartialEq, Eq, Hash, Serialize, Deserialize)]
 pub enum EphMode {
@@ -162,10 +204,10 @@ impl SessionSpec {
         }
     }
     pub fn s_priv(&self, initiator: bool) -> [u8; 32] {
-        priv_from_seed(self.suite.dh, self.key_seed, if initiator { 1 } else { 2 })
+        shaped_priv(self.suite.dh, self.key_seed, if initiator { 1 } else { 2 })
     }
     pub fn e_priv(&self, initiator: bool) -> [u8; 32] {
-        priv_from_seed(self.suite.dh, self.key_seed, if initiator { 3 } else { 4 })
+        shaped_priv(self.suite.dh, self.key_seed, if initiator { 3 } else { 4 })
     }
     pub fn s_pub(&self, initiator: bool) -> Vec<u8> {
         rc::dh_pub(self.suite.dh, &self.s_priv(initiator)).expect("valid private key by construction")
